@@ -1,6 +1,6 @@
 (** Pins for C01: the statements written out, so that no theorem is weakened quietly. *)
 From TucModel Require Import Base.Bytes Base.ListX Model.Bounds Model.BoundsParse Model.Scan Model.Opt
-     Model.CutBytes Model.CutStr Spec.Fields Proofs.C06 Proofs.ScanSplit Proofs.Plain Proofs.C01More Properties.C01.
+     Model.CutBytes Model.CutStr Spec.Fields Proofs.C06 Proofs.ScanSplit Proofs.Plain Proofs.C01More Proofs.PlainMulti Properties.C01.
 
 
 Check C01_fields_locations_are_fields :
@@ -84,3 +84,29 @@ Check C01_staged_fields_are_the_fields :
   forall (o : opt) (line1 : bytes), o_delim o <> [] -> line1 <> [] ->
     pieces (fst (lit_stage o line1)) (snd (lit_stage o line1)) = spec_fields o line1.
 Print Assumptions C01_staged_fields_are_the_fields.
+
+Check C01_record_as_a_function_of_its_fields :
+  forall (o : opt) (line0 : bytes),
+    value_opts o -> Forall item_nz (items (o_bounds o)) ->
+    cut_str o line0
+    = Some (let line1 := match o_trim o with Some k => trim_lit k (o_delim o) line0 | None => line0 end in
+            match line1 with
+            | [] => ROk (if o_only_delimited o then [] else [o_eol o])
+            | _ =>
+                let fs := if o_compress o then squeeze (split (o_delim o) line1) else split (o_delim o) line1 in
+                if o_only_delimited o && Nat.eqb (length fs) 1 then ROk []
+                else match effective_bounds o (length fs) with
+                     | None => RErr
+                     | Some bs =>
+                         match spec_items fs (o_fallback o) (o_join o) (rep_of' o) bs with
+                         | Some x => ROk (x ++ [o_eol o])
+                         | None => RErr
+                         end
+                     end
+            end).
+Print Assumptions C01_record_as_a_function_of_its_fields.
+
+Check C01_replacement_rewrites_exactly_the_separators_any_delimiter :
+  forall (d rep : bytes) (fs : list bytes), d <> [] -> fs <> [] -> leftmost_fields d fs ->
+    replace_matches (intercalate d fs) (lit_matches d (intercalate d fs)) rep = intercalate rep fs.
+Print Assumptions C01_replacement_rewrites_exactly_the_separators_any_delimiter.
